@@ -59,6 +59,16 @@ def gen_caps(rng):
 def gen_multiset(rng, n):
     """n handlers with pairwise distinct ids; physical locations drawn from k <= n pool entries."""
     k = rng.randint(1, max(1, min(n, 6)))
+    if n >= 9 and rng.random() < 0.5:    # many physical locations (growth thresholds of internal tables: 8, 16, 32), handlers interleaved
+        k = rng.randint(7, min(n, 40))
+        pool = PHYS_POOL + [b"hub%d-port%d" % (i // 4, i % 4) for i in range(30)]
+        phys = rng.sample(pool, min(k, len(pool)))
+        ids = rng.sample(range(1, 1000), n)
+        evs = [0] * n
+        hs = [{"id": ids[i], "phys": list(phys[i % len(phys)] if i < len(phys) * 2 else rng.choice(phys)), "caps": gen_caps(rng), "ev": evs[i],
+               "hw": rng.choice([0, 1, 1, 2, 3])} for i in range(n)]
+        rng.shuffle(hs)
+        return hs
     if rng.random() < 0.3:               # confusable locations
         base = [b"u1", b"u1 ", b"U1", b"u", b"u1/input0", b"u1/input1", b"", b" "]
         phys = rng.sample(base, min(k, len(base)))
